@@ -8,7 +8,7 @@ LEVEL = "proof"
 NEED_RELEASE = True
 COQ_TARGETS = ["Props/C05.vo", "Props/C05_fp.vo", "Props/C05_bounds.vo"]
 PROPS_FILES = ["C05", "C05_fp", "C05_bounds"]
-THEOREMS = ["C05_geometric_new_terminates", "C05_binv_inner_no_fuel_exhaustion", "C05_knuth_words", "C05_hin_loop_no_fuel_exhaustion", "C05_std_geometric_words", "C05_fingerprints", "C05_zig_first_pass_norm", "C05_zig_first_pass_exp", "C05_canon_words", "C05_lemire_words", "C05_tree_descent_terminates"]
+THEOREMS = ["C05_btpe_loop_words", "C05_h2pe_loop_words", "C05_geometric_new_terminates", "C05_binv_inner_no_fuel_exhaustion", "C05_knuth_words", "C05_hin_loop_no_fuel_exhaustion", "C05_std_geometric_words", "C05_fingerprints", "C05_zig_first_pass_norm", "C05_zig_first_pass_exp", "C05_canon_words", "C05_lemire_words", "C05_tree_descent_terminates"]
 TRUSTED_BASE = [
     "Coq 8.16.1 kernel; first-pass return probability of the ziggurat from the regenerated tables by reflection (>= 0.985 normal, >= 0.977 "
     "exponential); word bounds of rand's Canon/Lemire range reduction; termination of the tree descent; the inner-loop identities of "
